@@ -731,7 +731,62 @@ def run_C13(tier, rng, chk):
             L.append("? 0 1")
         st.append(("c13_twin_%d" % i, L))
     out = chk.run_stream(st, prop="C13", twin=True)
-    return [fam("twin runs(history; clear; suffix  vs  fresh parser with the same settings; same suffix probing candidates, AF candidates, last RT flag, cells)", st, out, twin=True)]
+    res = [fam("twin runs(history; clear; suffix  vs  fresh parser with the same settings; same suffix probing candidates, AF candidates, last RT flag, cells)", st, out, twin=True)]
+    # corner prefixes: each leaves one particular piece of hidden state behind, the suffix probes it
+    st2 = []
+    for i in range(scale(tier, 160, 1000)):
+        gg = Gen(rng)
+        kind = i % 8
+        pi = rng.choice([0x3201, 0x9201, 0x1234])
+        pre = ["0 I %d" % rng.choice([0, 255, 165])] + ["0 R %d %d" % (f, rng.randrange(1, 4)) for f in range(12) if rng.random() < 0.85]
+        pre.append("0 U %d" % rng.randrange(1, 1000))
+        probe = []
+        fl = rng.randrange(2)
+        ebq = rng.choice([1, 2])
+        grp0 = (pi, mkB(0, 0, 1, 7, 0b01001), 0x0190, 0x4142)
+        grp1 = (pi, mkB(1, 0, 1, 7, 0), 0x00E2, 0)
+        rtg = lambda f, e, w=0x4142: P(0, pi, mkB(2, rng.randrange(2), 1, 7, (f << 4) | rng.randrange(4)), w, 0x4344, (0, e, 0, 0))
+        if kind == 0:      # RT text stored while no flag has been seen (corrected block B only)
+            pre += ["0 T 1 0 %d" % ebq] + [rtg(rng.randrange(2), ebq) for _ in range(rng.randrange(1, 5))]
+            probe = [rtg(f, e) for f in (0, 1) for e in (0, ebq)]
+        elif kind == 1:    # stable station in normal mode; the check is switched on after the reset
+            pre += [P(0, *grp0), P(0, *grp0), P(0, *grp1), P(0, *grp1)]
+            probe = ["0 X 1", P(0, *grp0), P(0, *grp1), P(0, *grp0), P(0, *grp1)]
+        elif kind == 2:    # check on, candidates pending
+            pre += ["0 X 1", P(0, *grp0), P(0, *grp1)]
+            probe = [P(0, *grp0), P(0, *grp1), P(0, *grp0)]
+        elif kind == 3:    # check on, accepted values + candidates of other values
+            pre += ["0 X 1", P(0, *grp0), P(0, *grp0), P(0, 0x5555, mkB(0, 0, 0, 3, 0), 0x0205, 0x5152)]
+            probe = [P(0, 0x5555, mkB(0, 0, 0, 3, 0), 0x0205, 0x5152), P(0, *grp0)]
+        elif kind == 4:    # a flag has been seen; after the reset a corrected block B with the other flag
+            pre += ["0 T 1 0 %d" % ebq, rtg(fl, 0)]
+            probe = [rtg(1 - fl, ebq), rtg(fl, ebq), rtg(1 - fl, 0)]
+        elif kind == 5:    # clock time reported, the same report again after the reset
+            ct = P(0, *ct_group(rng.choice([60369, 0, 125811]), rng.randrange(24), rng.randrange(60), rng.randrange(64)))
+            pre += [ct]
+            probe = [ct, P(0, *ct_group(0, 0, 0, 0))]
+        elif kind == 6:    # progressive cells at good levels, worse receptions after the reset
+            pre += ["0 G 0 1", "0 G 1 1", "0 G 2 1", "0 T 0 1 2", "0 T 1 1 2", "0 T 2 1 2", P(0, *grp0), rtg(fl, 0), P(0, pi, mkB(10, 0, 1, 7, 0), 0x4142, 0x4344)]
+            probe = [P(0, pi, grp0[1], grp0[2], 0x5152, (0, 0, 0, 2)), P(0, pi, mkB(2, 0, 1, 7, fl << 4), 0x5152, 0x5354, (0, 0, 2, 2)), P(0, pi, mkB(10, 0, 1, 7, 0), 0x5152, 0x5354, (0, 0, 1, 2))]
+        else:              # both RT buffers filled, AF list, ECC
+            pre += [rtg(0, 0), rtg(1, 0), rtg(0, 0), P(0, *grp0), P(0, *grp1)]
+            probe = [rtg(1, 0), rtg(0, 0), P(0, *grp0), P(0, *grp1)]
+        for _ in range(rng.randrange(0, 4)):
+            pre.insert(rng.randrange(2, len(pre) + 1), gg.parse_line(rng.choice(["other", "0B", "10A", "4A"])))
+        L = list(pre)
+        L.append("0 C")
+        L.append("1 I %d" % rng.choice([0, 255, 165]))
+        for sl in settings_of_lines(pre):
+            L.append("1 " + sl)
+        L.append("?c 0 1")
+        for l in probe + [gg.parse_line() for _ in range(rng.randrange(2, 10))]:
+            L.append(l)
+            L.append("1" + l[1:])
+            L.append("? 0 1")
+        st2.append(("c13_corner_%d_k%d" % (i, kind), L))
+    out = chk.run_stream(st2, prop="C13", twin=True)
+    res.append(fam("corner prefixes(RT text with no flag seen, candidates pending, check switched on after the reset, stale flag, repeated clock time, progressive levels)", st2, out, twin=True))
+    return res
 
 
 def malformed_strings(rng, tier):
